@@ -89,13 +89,13 @@ func (c *BaseTableMetaCache) Init(ctx context.Context) error {
 // refresh
 func (c *BaseTableMetaCache) refresh(ctx context.Context) {
 	f := func() {
-		if c.db == nil || c.cfg == nil || c.cache == nil || len(c.cache) == 0 {
+		if c.db == nil || c.cfg == nil {
 			return
 		}
 
-		tables := make([]string, 0, len(c.cache))
-		for table := range c.cache {
-			tables = append(tables, table)
+		tables := c.cachedTables()
+		if len(tables) == 0 {
+			return
 		}
 		conn, err := c.db.Conn(ctx)
 		if err != nil {
@@ -127,6 +127,18 @@ func (c *BaseTableMetaCache) refresh(ctx context.Context) {
 	for range ticker.C {
 		f()
 	}
+}
+
+// cachedTables names of the cached tables
+func (c *BaseTableMetaCache) cachedTables() []string {
+	c.lock.RLock()
+	defer c.lock.RUnlock()
+
+	tables := make([]string, 0, len(c.cache))
+	for table := range c.cache {
+		tables = append(tables, table)
+	}
+	return tables
 }
 
 // scanExpire
